@@ -131,9 +131,13 @@ class C13(Prop):
             yield {'t0': rng.randrange(1, 4), 'ops': ops}
 
     def run_impl(self, case):
+        if case.get('session_workload'):
+            return self.session_workload(case)
         return run_trace(case)
 
     def coq_case(self, case, obs):
+        if case.get('session_workload'):
+            return None
         items = []
         for (lab, s) in obs:
             l = f"({lab[0]} {c_Z(lab[1])})" if lab[0] == 'SetTarget' else f"({lab[0]} {c_N(lab[1])})"
@@ -145,6 +149,8 @@ class C13(Prop):
         return f"({c_Z(case['t0'])}, {c_list(items, 'label * snap')})"
 
     def oracle(self, case, obs):
+        if case.get('session_workload'):
+            return ('session level: ' + obs['viol'][0]) if obs['viol'] else None
         maxt = case['t0']
         target = case['t0']
         ok_targets = True
@@ -191,10 +197,115 @@ class C13(Prop):
             prev = s
         return None
 
+    # ---- the session-level bound: a real RPCSession serving more requests than its limit
+    @staticmethod
+    def session_workload(case):
+        import asyncio, json
+        from harness import sessions
+        from aiorpcx import RPCSession
+        loop = sessions.new_loop()
+        try:
+            gates, running, peak, order, done = {}, set(), [0], [], []
+
+            class Srv(RPCSession):
+                processing_timeout = 10 ** 6
+                cost_decay_per_sec = 0
+
+                async def handle_request(self, request):
+                    k = request.args[0]
+                    running.add(k)
+                    order.append(k)
+                    peak[0] = max(peak[0], len(running))
+                    try:
+                        await gates[k]
+                    finally:
+                        running.discard(k)
+                        done.append(k)
+                    return k
+
+            async def main():
+                proto, ft, s = sessions.attach(Srv, 'server', case['transport'])
+                n = case['n']
+                viol = []
+                for k in range(n):
+                    gates[k] = loop.create_future()
+                sent = 0
+                limit0 = s._incoming_concurrency.max_concurrent
+                largest = limit0
+                for step in case['steps']:
+                    if step[0] == 'arrive':
+                        for _ in range(step[1]):
+                            if sent < n:
+                                kind = 'notification' if (sent % 7 == 3) else 'request'
+                                d = {'jsonrpc': '2.0', 'method': 'work', 'params': [sent]}
+                                if kind == 'request':
+                                    d['id'] = sent
+                                proto.data_received(json.dumps(d).encode() + b'\n')
+                                sent += 1
+                    elif step[0] == 'finish':
+                        live = sorted(running)
+                        for k in live[:step[1]]:
+                            if not gates[k].done():
+                                gates[k].set_result(None)
+                    elif step[0] == 'limit':
+                        s._incoming_concurrency.set_target(step[1])
+                        largest = max(largest, step[1])
+                    await sessions.settle(8)
+                    cur = s._incoming_concurrency.max_concurrent
+                    if len(running) > largest:
+                        viol.append(f'{len(running)} handlers run at once, the largest limit in force was {largest}')
+                    unanswered = s.unanswered_request_count()
+                    if unanswered != sent - len(done):
+                        viol.append(f'unanswered_request_count() = {unanswered}, received {sent}, finished {len(done)}')
+                # drain: everything is eventually served, in arrival order
+                for _ in range(4 * n):
+                    for k in sorted(running):
+                        if not gates[k].done():
+                            gates[k].set_result(None)
+                    await sessions.settle(8)
+                    if len(done) == sent:
+                        break
+                if len(done) != sent:
+                    viol.append(f'only {len(done)} of {sent} requests were ever served')
+                if order != sorted(order):
+                    viol.append('requests were not admitted in arrival order')
+                return {'viol': viol[:3], 'peak': peak[0], 'limit0': limit0, 'sent': sent}
+            return loop.run_until_complete(main())
+        finally:
+            sessions.close_loop(loop)
+
+    def extra_checks(self, ctx):
+        from harness.core import Failure
+        rng = ctx['rng']
+        out = []
+        n = 40 if ctx['tier'] == 'quick' else 600
+        peaks = []
+        for _ in range(n):
+            steps = []
+            for _ in range(rng.randrange(4, 14)):
+                r = rng.random()
+                steps.append(['arrive', rng.choice([1, 5, 30, 70])] if r < 0.5 else
+                             ['finish', rng.choice([1, 3, 10, 40])] if r < 0.85 else ['limit', rng.choice([3, 8, 20, 30])])
+            case = {'session_workload': True, 'n': rng.choice([30, 80, 150]), 'steps': steps,
+                    'transport': rng.choice(['rs', 'us'])}
+            obs = self.session_workload(case)
+            peaks.append(obs['peak'])
+            if obs['viol']:
+                out.append(Failure(case, obs, 'session level: ' + obs['viol'][0]))
+                if len(out) >= 3:
+                    break
+        ctx['notes'].append(f'session-level workloads on a real RPCSession: {n}, peak concurrent handlers max {max(peaks)} '
+                            f'(reaching the limit in {sum(1 for p in peaks if p >= 20)} of them)')
+        return out
+
     def nontrivial(self, case, obs):
+        if case.get('session_workload'):
+            return True
         return any(s['waiters'] for _, s in obs) and any(l[0] == 'SetTarget' for l, _ in obs)
 
     def histogram(self, case, obs):
+        if case.get('session_workload'):
+            return ['session_workload']
         h = {}
         for lab, s in obs:
             h['label=' + lab[0]] = 1
